@@ -174,7 +174,10 @@ unique_ptr<DiscreteDistributionInterface> BppODiscreteDistributionFormat::readDi
     if (args.find("n") == args.end())
       throw Exception("Missing argument 'n' (number of classes) in " + distName
             + " distribution");
-    unsigned int nbClasses = TextTools::to<unsigned int>(args["n"]);
+    int n = TextTools::toInt(args["n"]);
+    if (n < 1)
+      throw Exception("Bad number of classes in " + distName + " distribution, should be at least 1: " + args["n"]);
+    unsigned int nbClasses = static_cast<unsigned int>(n);
 
     if (distName == "Gamma")
     {
